@@ -332,6 +332,30 @@ fn main() {
                 acts.push(Act::RemoteRead);
             }
         }
+        if slow_socket && rng.below(2) == 0 {
+            // the socket stays blocked while commands pile up and a consumer that needs a sync joins
+            if attached == 0 {
+                acts.push(Act::Attach { sync: true });
+                attached += 1;
+                acts.push(Act::RemoteRead);
+            }
+            if !linked {
+                acts.push(Act::Remote(RMsg::Linked));
+            }
+            for _ in 0..rng.range(2, 4) {
+                next_cmd += 1;
+                acts.push(Act::Command(rng.usize_below(attached), next_cmd));
+            }
+            if attached < 4 {
+                acts.push(Act::Attach { sync: true });
+                attached += 1;
+            }
+            for _ in 0..rng.range(0, 2) {
+                next_cmd += 1;
+                acts.push(Act::Command(rng.usize_below(attached), next_cmd));
+            }
+        }
+        acts.push(Act::RemoteRead);
         acts.push(Act::RemoteRead);
         let out = rt.block_on(run_case(map, &acts, if slow_socket { 48 } else { 65536 }));
         if let Some(p) = &out.problem {
@@ -370,13 +394,14 @@ fn main() {
             })
             .collect();
         let term = format!(
-            "{{| dc_single := {}; dc_revs := {}; dc_seen := {}; dc_wevs := {}; dc_frames := {}; dc_check_frames := {} |}}",
+            "{{| dc_single := {}; dc_revs := {}; dc_seen := {}; dc_wevs := {}; dc_frames := {}; dc_check_frames := {}; dc_drained := {} |}}",
             !map,
             coq_list(revs),
             coq_list(out.seen.iter().enumerate().map(|(c, l)| format!("({}, {})", c, coq_list(l.iter().map(coq_note))))),
-            coq_list(out.wevs.iter().filter(|e| *e != "WWritten" || !slow_socket).cloned()),
+            coq_list(out.wevs.iter().cloned()),
             coq_list(frames),
-            !slow_socket && !map && !acts.iter().any(|a| matches!(a, Act::Remote(RMsg::Unlinked)))
+            !slow_socket && !map && !acts.iter().any(|a| matches!(a, Act::Remote(RMsg::Unlinked))),
+            !acts.iter().any(|a| matches!(a, Act::Remote(RMsg::Unlinked)))
         );
         let human = format!("map={} slow_socket={} actions {:?} -> consumers {:?} remote {:?}", map, slow_socket, acts, out.seen, out.frames);
         if samples.len() < 3 && late {
